@@ -12,17 +12,18 @@ COQ_PROPERTY_FILE = "Properties/C16.v"
 COQ_DEPS = ["Common/ListX.v", "Common/ObsHash.v", "Generated/Tables.v", "Model/Signals.v", "Proofs/SignalsProofs.v",
             "Proofs/SignalsBridge.v"]
 COQ_IMPORTS = "From Mesa Require Import Generated.Tables Model.Signals."
-COQ_CASE_TYPE = "case"
-COQ_RUN = "run_case"
+COQ_CASE_TYPE = "anycase"
+COQ_RUN = "run_any"
 TABLE_CONSTRUCTS = ["sig_tables", "dg_shadowing", "sig_observe_code", "sig_unobserve_code", "sig_clear_code",
                     "sig_mesa_notify_code", "sl_setitem_code", "sl_delitem_code", "sl_insert_code", "sl_append_code",
-                    "signals_glue"]
+                    "signals_glue", "ms_pop_code", "ms_pop_default", "ms_remove_code", "ms_extend_code", "ms_iadd_code",
+                    "ms_reverse_code", "ms_clear_code", "ms_glue"]
 SIG = "mesa/experimental/mesa_signals/"
 SOURCE_FUNCS = [(SIG + "mesa_signal.py", "BaseObservable.__set__"), (SIG + "mesa_signal.py", "Observable.__set__"),
                 (SIG + "mesa_signal.py", "HasObservables"), (SIG + "mesa_signal.py", "descriptor_generator"),
                 (SIG + "mesa_signal.py", "All"), (SIG + "observable_collections.py", "*"), (SIG + "signals_util.py", "*")]
 ENUM_ALWAYS = False
-RULE = ("histories = one HasObservables class with 2-4 Observable/ObservableList attributes (declared in a base class and "
+RULE = ("(a quarter of the histories build the class as a three-level chain or a diamond with bindings shadowed along the mro) histories = one HasObservables class with 2-4 Observable/ObservableList attributes (declared in a base class and "
         "a subclass, sometimes an attribute overridden with the other kind), 1-2 instances, 2-5 handlers (functions and "
         "bound methods, bound methods of one listener die together) and <= 30 operations: observe / unobserve / "
         "clear_all_subscriptions with concrete names, All() and unknown names / signal types in either position, scalar "
@@ -173,6 +174,31 @@ def _gen_handlers(rng):
     return hs
 
 
+HIER_MRO = {"chain3": 3, "diamond": 4}      # number of user classes, most derived first
+
+
+def _gen_hier(rng, decl):
+    """a deeper hierarchy for the same effective attributes: chain A <- B <- C, or diamond A; B(A), C(A); D(B, C).
+    bind = [mro position (0 = the instantiated class), attribute id, kind, fallback]; for every attribute the binding at
+    the smallest mro position is the effective one (= decl), classes further along the mro may bind it to anything"""
+    shape = rng.choice(["chain3", "diamond"])
+    n = HIER_MRO[shape]
+    bind, extra = [], []
+    for i, d in enumerate(decl):
+        owner = rng.randrange(n)
+        bind.append([owner, i, d["kind"], d.get("fallback")])
+        for later in range(owner + 1, n):
+            if rng.random() < 0.3:
+                bind.append([later, i, rng.choice(["obs", "list", "plain"]), None])
+    for j in range(rng.randint(0, 2)):
+        owner = rng.randrange(n - 1)
+        bind.append([owner, 100 + j, "plain", None])
+        bind.append([rng.randrange(owner + 1, n), 100 + j, rng.choice(["obs", "list"]), None])
+        extra.append({"id": 100 + j, "base": "obs"})
+    rng.shuffle(bind)
+    return {"shape": shape, "bind": bind}, extra
+
+
 def _name_pick(rng, decl, extra=()):
     r = rng.random()
     if r < 0.55:
@@ -203,6 +229,11 @@ def _gen_history(rng, nops, dup_stream=False, force_mixed=False):
     handlers = _gen_handlers(rng)
     extra = _gen_extra(rng)
     case = {"decl": decl, "extra": extra, "init": init, "handlers": handlers, "dup": dup_stream, "ops": []}
+    if rng.random() < 0.25:
+        for d in decl:
+            d["where"], d["override"] = "sub", None
+        case["hier"], case["extra"] = _gen_hier(rng, decl)
+        extra = case["extra"]
     orc = _Oracle(case)               # generator-side bookkeeping (spec semantics), to steer towards valid histories
     shadow = [[(list(v) if isinstance(v, list) else v) for v in row] for row in init]
     alive = {h[0] for h in handlers}
@@ -262,8 +293,29 @@ def _gen_history(rng, nops, dup_stream=False, force_mixed=False):
     return case
 
 
+def _gen_reentrant(rng):
+    """handlers that observe / unobserve on the (name, type) being notified - outside the property's quantifier:
+    correspondence with Model/Signals.v:notify_re only, the oracle is silent on these"""
+    hs = list(range(1, rng.randint(3, 5) + 1))
+    script = {}
+    for h in hs:
+        r = rng.random()
+        if r < 0.45:
+            continue
+        script[h] = ["unobs", rng.choice(hs)]
+    for h in hs:                       # a few subscribe somebody whose own action is not another subscription
+        if h not in script and rng.random() < 0.35:
+            script[h] = ["obs", rng.choice([x for x in hs if x not in script or script[x][0] != "obs"] or [h])]
+            if script[h][1] == h:
+                del script[h]
+    subs = [h for h in hs if rng.random() < 0.7] or [hs[0]]
+    rng.shuffle(subs)
+    return {"re": {"subs": subs, "script": [[h, a, t] for h, (a, t) in sorted(script.items())]},
+            "ops": [["round"] for _ in range(rng.randint(2, 4))]}
+
+
 def gen_cases(rng, tier):
-    cases = []
+    cases = [_gen_reentrant(rng) for _ in range(40 if tier == "quick" else 400)]
     # the corner cases the quantifier names, always: All in either position on mixed classes, both declaration orders
     for order in (("obs", "list"), ("list", "obs")):
         for where in (("sub", "sub"), ("base", "sub"), ("sub", "base")):
@@ -455,7 +507,19 @@ def _enc_idx(ix):
 _MISSING = object()
 
 
-def _build_class(decl, extra=()):
+def _hier_namespaces(hier):
+    """per mro position the (attribute id, kind, fallback) bindings in definition order"""
+    ns = [[] for _ in range(HIER_MRO[hier["shape"]])]
+    for pos, n, kind, fb in hier["bind"]:
+        ns[pos].append((n, kind, fb))
+    return ns
+
+
+def _attr_name(n):
+    return f"o{n}" if n < 100 else f"x{n}"
+
+
+def _build_class(decl, extra=(), hier=None):
     from mesa.experimental.mesa_signals import HasObservables, Observable, ObservableList
 
     def mk(kind, fb):
@@ -465,6 +529,29 @@ def _build_class(decl, extra=()):
             return Observable() if fb is None else Observable(fallback_value=fb)
         return ObservableList()
 
+    if hier is not None:
+        nss = [{_attr_name(n): mk(kind, fb) for n, kind, fb in cls_ns} for cls_ns in _hier_namespaces(hier)]
+
+        def __init__(self, init):
+            super(leaf, self).__init__()
+            for i, v in enumerate(init):
+                if v is not None:
+                    setattr(self, f"o{i}", list(v) if isinstance(v, list) else v)
+        nss[0]["__init__"] = __init__
+        if hier["shape"] == "chain3":
+            a = type("A", (HasObservables,), nss[2])
+            b = type("B", (a,), nss[1])
+            leaf = type("C", (b,), nss[0])
+            want = [leaf, b, a]
+        else:
+            a = type("A", (HasObservables,), nss[3])
+            b = type("B", (a,), nss[1])
+            c = type("C", (a,), nss[2])
+            leaf = type("D", (b, c), nss[0])
+            want = [leaf, b, c, a]
+        if list(leaf.__mro__[:len(want)]) != want:
+            raise RuntimeError("driver: unexpected mro")
+        return leaf
     base_ns, sub_ns = {}, {}
     for i, d in enumerate(decl):
         nm = f"o{i}"
@@ -526,7 +613,47 @@ def _hid_of(h):
     return getattr(h, "_hid", -1)
 
 
+def _run_reentrant(case):
+    from mesa.experimental.mesa_signals import HasObservables, Observable
+
+    class R(HasObservables):
+        x = Observable()
+
+    obj = R()
+    obj.x = 0
+    calls, handlers = [], {}
+    script = {h: (a, t) for h, a, t in case["re"]["script"]}
+    ids = set(case["re"]["subs"]) | set(script) | {t for _, t in script.values()}
+
+    def mk(h):
+        def f(signal):
+            calls.append(h)
+            a, t = script.get(h, ("nop", 0))
+            if a == "obs":
+                obj.observe("x", "change", handlers[t])
+            elif a == "unobs":
+                obj.unobserve("x", "change", handlers[t])
+        f._hid = h
+        return f
+    for h in ids:
+        handlers[h] = mk(h)
+    for h in case["re"]["subs"]:
+        obj.observe("x", "change", handlers[h])
+    obs = []
+    for i, _ in enumerate(case["ops"]):
+        del calls[:]
+        if sum(1 for _ in obj.subscribers["x"]["change"]) > 150:
+            obs.append([-3])
+            break
+        obj.x = i + 1
+        reg = [r()._hid for r in obj.subscribers["x"]["change"] if r() is not None]
+        obs.append(list(calls) + [-7] + reg)
+    return {"obs": obs, "failures": []}
+
+
 def run_impl(case):
+    if "re" in case:
+        return _run_reentrant(case)
     import gc
     import weakref
 
@@ -536,7 +663,7 @@ def run_impl(case):
     k = len(decl)
     extra = case.get("extra", [])
     extra_ids = {x["id"] for x in extra}
-    cls = _build_class(decl, extra)
+    cls = _build_class(decl, extra, case.get("hier"))
     objs = [cls(init) for init in case["init"]]
     ninst = len(objs)
     log = []          # (hid, signal) as the handlers are called
@@ -678,7 +805,7 @@ def run_impl(case):
                         status = [-1, E_NAME if orc.scope(nm) is None else E_TYPE]
                     if keys is None:
                         if raised is None:
-                            over = [n for n in (orc.scope(nm) or []) if decl[n].get("override")] or ([nm] if nm in extra_ids else [])
+                            over = [n for n in (orc.scope(nm) or []) if decl[n].get("override") or case.get("hier")] or ([nm] if nm in extra_ids else [])
                             fail("C16/observe/overridden-observable-types" if over else "C16/observe/invalid-accepted", opi,
                                  f"{op}: observe accepted an unknown observable or a signal type that is not emitted"
                                  + (f" (attribute(s) {over} override an inherited observable of another kind)" if over else ""))
@@ -691,7 +818,7 @@ def run_impl(case):
                             orc.ledger[i] = {key: list(v) for key, v in registry(i).items()}
                     else:
                         if raised is not None:
-                            over = [n for n in (orc.scope(nm) or []) if decl[n].get("override")]
+                            over = [n for n in (orc.scope(nm) or []) if decl[n].get("override") or case.get("hier")]
                             key = "C16/observe/overridden-observable-types" if over else "C16/observe/valid-subscription-rejected"
                             what = (f"{op}: every requested (name, type) exists ({[(n, TYPE_NAME[t]) for n, t in keys]}) but observe raised ValueError: {raised}")
                             fail(key, opi, what)
@@ -962,6 +1089,9 @@ def _entry(kind, fb=None):
 
 def _mro(case):
     """vars(Sub), vars(Base) in definition order, as _build_class creates them (most derived first)"""
+    if case.get("hier"):
+        return L.lst([L.lst([L.pair(L.z(n), _entry(kind, fb)) for n, kind, fb in cls_ns])
+                      for cls_ns in _hier_namespaces(case["hier"])])
     base, sub = [], []
     for i, d in enumerate(case["decl"]):
         own = L.pair(L.z(i), _entry(d["kind"], d.get("fallback")))
@@ -978,7 +1108,19 @@ def _mro(case):
     return L.lst([L.lst(sub), L.lst(base)])
 
 
+def _haction(a, t):
+    return {"obs": f"HObserve {L.z(t)}", "unobs": f"HUnobserve {L.z(t)}"}.get(a, "HNop")
+
+
 def coq_case(case):
+    if "re" in case:
+        sc = L.lst([L.pair(L.z(h), _haction(a, t)) for h, a, t in case["re"]["script"]])
+        return (f"Reentrant {{| rc_subs := {L.zlist(case['re']['subs'])}; rc_script := {sc}; "
+                f"rc_rounds := {len(case['ops'])} |}}")
+    return "Plain " + _coq_plain(case)
+
+
+def _coq_plain(case):
     decl = case["decl"]
     insts = L.lst([L.lst([_slot(d, v) for d, v in zip(decl, row)]) for row in case["init"]])
     groups = {}
@@ -1007,6 +1149,8 @@ def coq_case(case):
 
 
 def op_kinds(case):
+    if "re" in case:
+        return ["reentrant-round"] * len(case["ops"])
     out = []
     for op in case["ops"]:
         if op[0] == "lop":
@@ -1019,6 +1163,8 @@ def op_kinds(case):
 
 
 def nontrivial(case):
+    if "re" in case:
+        return len(case["ops"]) >= 2 and bool(case["re"]["script"])
     n = 0
     for o in case.get("_obs", []):
         if len(o) > 2 and o[0] == 0:
